@@ -340,3 +340,24 @@ M("C09", "C09-SUM", PR, "                    _logp = pm.logp(par, raw_samples[pa
 M("C09", "C09-SUM", PR, "            log_prior = np.sum(logp, axis=0)\n", "            log_prior = np.max(logp, axis=0)\n", "sum -> max")
 M("C09", "C09-SUM", PR, "            for par in sub_pars.values():\n                try:\n", "            for par in sub_pars.values():\n                if par.name in ('omega', 'M0', 's'):\n                    continue\n                try:\n", "constant-looking variables skipped up front (seeded C09-B)")
 M("C09", "C09-SUM", PR, "            prior_samples[name] = np.atleast_1d(raw_samples[name]) * unit\n", "            prior_samples[name] = np.atleast_1d(raw_samples[par_names[0]]) * unit\n", "every column filled with the first variable's draws")
+
+# ---------------------------------------------------------------- C11
+M("C11", "C11-PHASE", TJ, "pm.Deterministic(\"t_peri\", p[\"P\"] * p[\"M0\"] / (2 * np.pi))", "pm.Deterministic(\"t_peri\", p[\"P\"] * p[\"M0\"] / np.pi)", "t_peri: 2 pi -> pi")
+M("C11", "C11-PHASE", TJ, "                t_periastron=model.named_vars[\"t_peri\"],\n", "                t0=model.named_vars[\"t_peri\"],\n", "t_peri passed as t0")
+M("C11", "C11-PHASE", TJ, "        x = data._t_bmjd - data._t_ref_bmjd\n", "        x = data._t_bmjd - data._t_bmjd.min()\n", "times relative to the first observation (seeded C11-A)")
+M("C11", "C11-PHASE", TJ, "        x = data._t_bmjd - data._t_ref_bmjd\n", "        x = data._t_bmjd\n", "reference epoch not subtracted")
+M("C11", "C11-PHASE", KO, "        M = (self._warp_times(t, _pad=_pad) - self.tref) * self.n\n", "        M = (self._warp_times(t, _pad=_pad) + self.tref) * self.n\n", "library: sign of tref")
+M("C11", "C11-PHASE", KO, "                    - self.sin_omega * sinf\n                    + self.ecc * self.cos_omega\n", "                    + self.sin_omega * sinf\n                    + self.ecc * self.cos_omega\n", "library: cos(omega - f)")
+T("C11", TJ, "pm.Deterministic(\"t_peri\", p[\"P\"] * p[\"M0\"] / (2 * np.pi))", "pm.Deterministic(\"t_peri\", (p[\"M0\"] / (2 * np.pi)) * p[\"P\"])", "t_peri factors reordered")
+M("C11", "C11-TREND", TJ, "                [p[\"v0\"]]\n                + [p[name] for name in offset_names]\n                + [p[name] for name in vtrend_names[1:]]\n", "                [p[name] for name in offset_names]\n                + [p[\"v0\"]]\n                + [p[name] for name in vtrend_names[1:]]\n", "offsets placed before v0")
+M("C11", "C11-TREND", TJ, "                + [p[name] for name in vtrend_names[1:]]\n", "                + [p[name] for name in vtrend_names]\n", "v0 counted twice")
+M("C11", "C11-TREND", TJ, "            rv_model = orbit.get_radial_velocity(x, K=p[\"K\"]) + trend\n", "            rv_model = orbit.get_radial_velocity(x, K=p[\"K\"]) - trend\n", "trend subtracted")
+M("C11", "C11-SIGMA", TJ, "            err = pt.sqrt(err**2 + p[\"s\"] ** 2)\n", "            err = pt.sqrt(err**2 + p[\"s\"])\n", "jitter not squared")
+M("C11", "C11-SIGMA", TJ, "            dist = pm.Normal.dist(model.model_rv, err)\n", "            dist = pm.Normal.dist(model.model_rv, data.rv_err.value)\n", "diagnostic sigma without jitter (reverse of fix)")
+M("C11", "C11-SIGMA", TJ, "            err = pt.sqrt(err**2 + p[\"s\"] ** 2)\n            pm.Normal(\"obs\", mu=rv_model, sigma=err, observed=y)\n", "            sigma = pt.sqrt(err**2 + p[\"s\"] ** 2)\n            pm.Normal(\"obs\", mu=rv_model, sigma=sigma, observed=y)\n", "sigma rebound, diagnostic keeps the raw errors (seeded C11-B)")
+M("C11", "C11-SIGMA", TJ, "            pm.Deterministic(\"ln_prior\", model.logp() - lnlike)\n", "            pm.Deterministic(\"ln_prior\", model.logp() + lnlike)\n", "ln_prior sign")
+M("C11", "C11-UNIT", TJ, "            \"P\": xu.to_unit(self.prior.pars[\"P\"], u.day),\n", "            \"P\": self.prior.pars[\"P\"],\n", "period used in the prior's unit (reverse of fix)")
+M("C11", "C11-UNIT", TJ, "            p[name] = xu.to_unit(self.prior.pars[name], rv_unit / u.day**i)\n", "            p[name] = xu.to_unit(self.prior.pars[name], rv_unit)\n", "trend coefficients converted to a velocity")
+M("C11", "C11-UNIT", TJ, "        err = data.rv_err.to_value(data.rv.unit)\n", "        err = data.rv_err.value\n", "errors stripped in their own unit")
+M("C11", "C11-INIT", TJ, "            mcmc_init[name] = MAP_sample[name].to_value(unit)\n", "            mcmc_init[name] = MAP_sample[name].value\n", "initial point not converted to the prior's units")
+M("C11", "C11-INIT", TJ, "            MAP_sample = joker_samples.median_period()\n", "            MAP_sample = joker_samples[0]\n", "first sample instead of the median-period sample")
